@@ -11,6 +11,7 @@ package syncx
 
 import (
 	"fmt"
+	"reflect"
 	"runtime"
 	"strconv"
 	"strings"
@@ -30,7 +31,13 @@ func c05PoolOps(r *verifh.Rng, n, maxage, nops int, breach bool) []string {
 	var ops []string
 	est := 0 // generator's estimate of the resources the harness holds (the executor resolves "@k" itself)
 	next := 0
+	waiting := 0 // estimate of the Gets left waiting (each later put is taken by one of them)
 	get := func() {
+		if est >= n && r.Chance(1, 2) && waiting < 3 {
+			ops = append(ops, "getw") // blocks and STAYS blocked until a put hands it a resource
+			waiting++
+			return
+		}
 		ops = append(ops, "get")
 		if est < n {
 			est++
@@ -39,9 +46,26 @@ func c05PoolOps(r *verifh.Rng, n, maxage, nops int, breach bool) []string {
 	put := func() {
 		// "put @k" = give back the k-th resource the harness holds at execution time
 		ops = append(ops, fmt.Sprintf("put @%d", r.Intn(n+1)))
-		if est > 0 {
+		if waiting > 0 {
+			waiting--
+		} else if est > 0 {
 			est--
 		}
+	}
+	burst := func() {
+		// several resources idle at once, then all of them (or all but the youngest) past maxAge
+		k := r.Range(2, n)
+		for j := 0; j < k; j++ {
+			ops = append(ops, "get")
+		}
+		for j := 0; j < k; j++ {
+			ops = append(ops, fmt.Sprintf("put @%d", r.Intn(n+1)))
+			if j == k-2 && r.Chance(1, 3) {
+				ops = append(ops, fmt.Sprintf("t+ %d", r.Pick(1, maxage/2+1, maxage)))
+			}
+		}
+		ops = append(ops, fmt.Sprintf("t+ %d", r.Pick(maxage, maxage+1, 2*maxage)), "get", "stat")
+		est = 1
 	}
 	advance := func() {
 		if maxage > 0 {
@@ -69,15 +93,23 @@ func c05PoolOps(r *verifh.Rng, n, maxage, nops int, breach bool) []string {
 			} else {
 				get()
 			}
-		case x < 75:
+		case x < 72:
 			advance()
+		case x < 76:
+			if maxage > 0 && n >= 2 && waiting == 0 {
+				burst()
+			} else {
+				advance()
+			}
 		case x < 85:
 			ops = append(ops, "stat")
 		case x < 88:
 			ops = append(ops, "putnil")
 		case x < 97 && breach:
-			// contract breach: a resource the pool never handed out / a double put
-			if r.Bool() {
+			// contract breach: a resource the pool never handed out / a double put / a panicking create
+			if r.Chance(1, 4) {
+				ops = append(ops, "getpanic")
+			} else if r.Bool() {
 				ops = append(ops, fmt.Sprintf("put %d", 1000+next))
 				next++
 			} else {
@@ -106,22 +138,35 @@ func c05Enumerate(alphabet []string, k int) [][]string {
 	return out
 }
 
-func c05Gen(r *verifh.Rng) []verifh.Section {
+func c05GenSeq(r *verifh.Rng) []verifh.Section {
 	var secs []verifh.Section
 	pickN := func() int { return c5.PickN(r) }
 	ret := func() string { return "return" }
 	// sequential differential
-	for i := 0; i < verifh.Scale(10, 400); i++ {
+	for i := 0; i < verifh.Scale(30, 400); i++ {
 		n := pickN()
 		secs = append(secs, verifh.Section{Cfg: fmt.Sprintf("kind=limit mode=seq n=%d", n),
 			Ops: c5.SeqOps(r, n, r.Range(10, 60), true, ret)})
 	}
-	for i := 0; i < verifh.Scale(5, 200); i++ {
+	for i := 0; i < verifh.Scale(12, 200); i++ {
 		n := pickN()
 		secs = append(secs, verifh.Section{Cfg: fmt.Sprintf("kind=tlimit mode=seq n=%d", n),
 			Ops: c5.SeqOps(r, n, r.Range(10, 40), true, ret)})
 	}
-	for i := 0; i < verifh.Scale(14, 600); i++ {
+	// TimeoutLimit with parked borrowers: `bwait` parks when the limit is full, a later `return` has to wake one
+	for i := 0; i < verifh.Scale(10, 150); i++ {
+		n := r.Pick(1, 1, 2, 3, r.Range(1, 5))
+		ops := c5.SeqOps(r, n, r.Range(8, 30), true, ret)
+		var out []string
+		for _, o := range ops {
+			if (o == "try" || o == "borrow") && r.Chance(1, 2) {
+				o = "bwait"
+			}
+			out = append(out, o)
+		}
+		secs = append(secs, verifh.Section{Cfg: fmt.Sprintf("kind=tlimit mode=seq n=%d", n), Ops: out})
+	}
+	for i := 0; i < verifh.Scale(50, 700); i++ {
 		n := r.Pick(1, 1, 2, 3, r.Range(1, 6))
 		maxage := r.Pick(0, 10, 100, 100)
 		breach := r.Chance(1, 3)
@@ -130,7 +175,7 @@ func c05Gen(r *verifh.Rng) []verifh.Section {
 			b = 1
 		}
 		secs = append(secs, verifh.Section{Cfg: fmt.Sprintf("kind=pool mode=seq n=%d maxage=%d breach=%d", n, maxage, b),
-			Ops: c05PoolOps(r, n, maxage, r.Range(10, 60), breach)})
+			Ops: c05PoolOps(r, n, maxage, r.Range(8, 36), breach)})
 	}
 	// thorough tier: exhaustive small scopes (every op sequence of the given length)
 	if verifh.Thorough() {
@@ -141,13 +186,19 @@ func c05Gen(r *verifh.Rng) []verifh.Section {
 			for _, ops := range c05Enumerate([]string{"try", "borrow", "return", "probe"}, 5) {
 				secs = append(secs, verifh.Section{Cfg: fmt.Sprintf("kind=tlimit mode=seq n=%d", n), Ops: ops})
 			}
-			for _, ops := range c05Enumerate([]string{"get", "put @0", "put @1", "t+ 11", "t+ 5"}, 5) {
+			for _, ops := range c05Enumerate([]string{"get", "getw", "put @0", "put @1", "t+ 11", "t+ 5"}, 5) {
 				secs = append(secs, verifh.Section{Cfg: fmt.Sprintf("kind=pool mode=seq n=%d maxage=10 breach=0", n),
 					Ops: append(append([]string(nil), ops...), "stat")})
 			}
 		}
 	}
-	// concurrent histories
+	return secs
+}
+
+// concurrent histories (built with -race; the sequential sections run in a binary without it: a -race
+// binary sleeps one second at exit, which made shrinking a failing sequential input slow)
+func c05GenConc(r *verifh.Rng) []verifh.Section {
+	var secs []verifh.Section
 	for i := 0; i < verifh.Scale(4, 100); i++ {
 		n := r.Pick(1, 2, 3, r.Range(1, 8))
 		g := r.Pick(n+1, 2*n+1, r.Range(2, 16))
@@ -222,7 +273,7 @@ func c05RunSem(op []string, n int, borrow func(r *verifh.Rng) bool, l c05Sem) st
 			}
 		}(gid)
 	}
-	if !c5.Watchdog(c5.StuckAfter, wg.Wait) {
+	if !c5.WatchdogProgress(h, c5.StuckIdle, c5.StuckAfter, wg.Wait) {
 		return "stuck"
 	}
 	return c5.RunLine(h, ga, c05Probe(l, n))
@@ -323,9 +374,30 @@ func c05StartLimit(cfg verifh.Cfg) (func(op []string) string, func()) {
 	return step, nil
 }
 
+// c05Parked counts the goroutines parked in the select of Cond.WaitWithTimeout (from the goroutine dump:
+// state "select", frame syncx.(*Cond).WaitWithTimeout).
+func c05Parked() int {
+	buf := make([]byte, 1<<20)
+	buf = buf[:runtime.Stack(buf, true)]
+	k := 0
+	for _, g := range strings.Split(string(buf), "\n\n") {
+		nl := strings.IndexByte(g, '\n')
+		if nl < 0 {
+			continue
+		}
+		if strings.Contains(g[:nl], "[select") && strings.Contains(g, "syncx.(*Cond).WaitWithTimeout") {
+			k++
+		}
+	}
+	return k
+}
+
 func c05StartTimeoutLimit(cfg verifh.Cfg) (func(op []string) string, func()) {
 	n := cfg.Int("n", 1)
 	l := NewTimeoutLimit(n)
+	base := c05Parked()
+	pending := 0                      // Borrow calls parked in cond.WaitWithTimeout (bwait)
+	wres := make(chan error, 1<<10) // results of the bwait calls
 	step := func(op []string) string {
 		switch op[0] {
 		case "try":
@@ -335,9 +407,43 @@ func c05StartTimeoutLimit(cfg verifh.Cfg) (func(op []string) string, func()) {
 			return "refused"
 		case "borrow":
 			return c05ErrTok(l.Borrow(200 * time.Microsecond))
+		case "bwait":
+			// Borrow with a long timeout on its own goroutine: it returns at once (a permit was free) or is
+			// SEEN parked in the select of WaitWithTimeout; it stays there until a Return signals it
+			go func() { wres <- l.Borrow(60 * time.Second) }()
+			if !c5.WaitUntil(10*time.Second, func() bool { return len(wres) > 0 || c05Parked()-base > pending }) {
+				return "stuck"
+			}
+			if len(wres) > 0 {
+				return c05ErrTok(<-wres)
+			}
+			pending++
+			return "waiting"
 		case "return":
-			return c05ErrTok(l.Return())
+			err := l.Return()
+			if err != nil || pending == 0 {
+				return c05ErrTok(err)
+			}
+			// Signal is a rendezvous with a parked receiver: delivered means one waiter is no longer parked
+			// the moment Return comes back; not delivered means all of them still are
+			if c05Parked()-base == pending {
+				return "ok woke=0"
+			}
+			select {
+			case e := <-wres:
+				pending--
+				if e == nil {
+					return "ok woke=1" // the woken Borrow got the permit just returned
+				}
+				return "ok woke=" + c05ErrTok(e)
+			case <-time.After(10 * time.Second):
+				return "ok woke=lost"
+			}
 		case "probe":
+			if pending > 0 {
+				// the public probe would Return (and thereby signal the parked callers): read the channel instead
+				return fmt.Sprintf("free=%d", cap(l.limit.pool)-len(l.limit.pool))
+			}
 			return fmt.Sprintf("free=%d", c05Probe(l, n))
 		case "run":
 			return c05RunSem(op, n, func(r *verifh.Rng) bool {
@@ -348,7 +454,23 @@ func c05StartTimeoutLimit(cfg verifh.Cfg) (func(op []string) string, func()) {
 		}
 		return "bad-op"
 	}
-	return step, nil
+	return step, func() {
+		// let the parked Borrow calls of this section go: free a slot, signal, collect
+		for ; pending > 0; pending-- {
+			select {
+			case <-l.limit.pool:
+			default:
+			}
+			select {
+			case l.cond.signal <- struct{}{}:
+			case <-time.After(time.Second):
+			}
+			select {
+			case <-wres:
+			case <-time.After(time.Second):
+			}
+		}
+	}
 }
 
 func c05StartPool(cfg verifh.Cfg) (func(op []string) string, func()) {
@@ -359,8 +481,13 @@ func c05StartPool(cfg verifh.Cfg) (func(op []string) string, func()) {
 	next := 0
 	var createdLog, destroyedLog []int
 	var hist *c5.Hist
+	createPanics := false
 	create := func() any {
 		mu.Lock()
+		if createPanics {
+			mu.Unlock()
+			panic("c05: create panics")
+		}
 		id := next
 		next++
 		createdLog = append(createdLog, id)
@@ -379,6 +506,18 @@ func c05StartPool(cfg verifh.Cfg) (func(op []string) string, func()) {
 		}
 	}
 	p := NewPool(n, create, destroy, WithMaxAge(time.Duration(maxage)))
+	// the pool's own mutex is replaced by a spying one (and the condition variable rebuilt on it, as NewPool
+	// does): a Get that reaches p.cond.Wait() is OBSERVED, no wall-clock timeout decides "it blocks".
+	spy := c5.NewSpyLock()
+	p.lock = spy
+	p.cond = sync.NewCond(spy)
+	const sentinel = -7
+	type out struct {
+		x   int
+		pan bool
+	}
+	results := make(chan out, 1<<10) // every Get call of the sequential mode reports here when it returns
+	pending := 0                      // Gets that are waiting in cond.Wait (anonymous: all are the same call)
 	var held []int
 	csv := func(xs []int) string {
 		if len(xs) == 0 {
@@ -390,23 +529,99 @@ func c05StartPool(cfg verifh.Cfg) (func(op []string) string, func()) {
 		}
 		return strings.Join(ss, ",")
 	}
+	logs := func() ([]int, []int) {
+		mu.Lock()
+		defer mu.Unlock()
+		return append([]int(nil), createdLog...), append([]int(nil), destroyedLog...)
+	}
+	// number of Signals the condition variable has delivered so far (sync.Cond.notify.notify), -1 if unreadable
+	notified := func() (k int64) {
+		defer func() {
+			if recover() != nil {
+				k = -1
+			}
+		}()
+		return int64(reflect.ValueOf(p.cond).Elem().FieldByName("notify").FieldByName("notify").Uint())
+	}
+	// inject pushes the sentinel and signals, by hand (not through Put: taking a waiter out must not depend
+	// on the code under test)
+	inject := func() {
+		spy.Lock()
+		p.head = &node{item: sentinel, next: p.head, lastUsed: timex.Now()}
+		p.cond.Signal()
+		spy.Unlock()
+	}
+	// runGet calls the real Get on its own goroutine: it either returns, or is SEEN entering cond.Wait.
+	// keepWaiting: a Get that waits stays pending (a later put hands it its resource); otherwise the harness
+	// takes one waiter out again by pushing a sentinel (pushed and popped at once: the pool is as before;
+	// sync.Cond wakes the oldest waiter, the new call takes its place — waiters are interchangeable).
+	// panicCreate: the create callback panics (if Get calls it at all).
+	runGet := func(keepWaiting, panicCreate bool) string {
+		mu.Lock()
+		createdLog, destroyedLog = nil, nil
+		createPanics = panicCreate
+		mu.Unlock()
+		for len(spy.Waiting) > 0 {
+			<-spy.Waiting
+		}
+		go func() {
+			var o out
+			func() {
+				defer func() {
+					if recover() != nil {
+						o.pan = true
+					}
+				}()
+				o.x = p.Get().(int)
+			}()
+			results <- o
+		}()
+		select {
+		case o := <-results:
+			mu.Lock()
+			createPanics = false
+			mu.Unlock()
+			cl, dl := logs()
+			if o.pan {
+				return fmt.Sprintf("panicked destroyed=%s", csv(dl))
+			}
+			held = append(held, o.x)
+			fresh := 0
+			if len(cl) > 0 {
+				fresh = 1
+			}
+			return fmt.Sprintf("got %d fresh=%d destroyed=%s", o.x, fresh, csv(dl))
+		case <-spy.Waiting:
+			mu.Lock()
+			createPanics = false
+			mu.Unlock()
+			_, dl := logs()
+			if keepWaiting {
+				pending++
+				return fmt.Sprintf("waiting destroyed=%s", csv(dl))
+			}
+			inject()
+			select {
+			case o := <-results:
+				if o.x != sentinel || o.pan {
+					return fmt.Sprintf("wait-cancel-got-%d", o.x)
+				}
+			case <-time.After(10 * time.Second):
+				return "wait-cancel-stuck"
+			}
+			return fmt.Sprintf("wait destroyed=%s", csv(dl))
+		case <-time.After(20 * time.Second):
+			return "stuck"
+		}
+	}
 	step := func(op []string) string {
 		switch op[0] {
 		case "get":
-			if p.head == nil && p.created >= p.limit {
-				return "wait" // Get would reach cond.Wait with nobody to wake it
-			}
-			createdLog, destroyedLog = nil, nil
-			var x int
-			if !c5.Watchdog(2*time.Second, func() { x = p.Get().(int) }) {
-				return "stuck" // Get waits although the pre-check saw an idle resource or spare capacity
-			}
-			held = append(held, x)
-			fresh := 0
-			if len(createdLog) > 0 {
-				fresh = 1
-			}
-			return fmt.Sprintf("got %d fresh=%d destroyed=%s", x, fresh, csv(destroyedLog))
+			return runGet(false, false)
+		case "getw":
+			return runGet(true, false)
+		case "getpanic":
+			return runGet(false, true)
 		case "put":
 			// "put @k": the k-th resource the harness holds (resolved at execution time); "put <id>": literal
 			var id int
@@ -420,8 +635,26 @@ func c05StartPool(cfg verifh.Cfg) (func(op []string) string, func()) {
 			} else {
 				id = verifh.Atoi(op[1])
 			}
+			before := notified()
 			p.Put(id)
-			return fmt.Sprintf("ok id=%d", id)
+			if pending == 0 {
+				return fmt.Sprintf("ok id=%d", id)
+			}
+			// a Get is waiting: Put's Signal has to wake one, which takes what was just put
+			if after := notified(); after >= 0 && after == before {
+				return fmt.Sprintf("ok id=%d woke=none", id) // no Signal was delivered: the waiter sleeps on
+			}
+			select {
+			case w := <-results:
+				pending--
+				if w.pan {
+					return fmt.Sprintf("ok id=%d woke=panic", id)
+				}
+				held = append(held, w.x)
+				return fmt.Sprintf("ok id=%d woke=%d", id, w.x)
+			case <-time.After(10 * time.Second):
+				return fmt.Sprintf("ok id=%d woke=none", id)
+			}
 		case "putnil":
 			p.Put(nil)
 			return "ok"
@@ -436,7 +669,7 @@ func c05StartPool(cfg verifh.Cfg) (func(op []string) string, func()) {
 			if len(idle) > 0 {
 				s = strings.Join(idle, ",")
 			}
-			return fmt.Sprintf("created=%d idle=%s", p.created, s)
+			return fmt.Sprintf("created=%d idle=%s waiters=%d", p.created, s, pending)
 		case "run":
 			pr := c5.Params(op)
 			g, iters, pan := pr.Int("g", 2), pr.Int("iters", 10), pr.Int("pan", 0)
@@ -472,7 +705,7 @@ func c05StartPool(cfg verifh.Cfg) (func(op []string) string, func()) {
 					}
 				}(gid)
 			}
-			if !c5.Watchdog(c5.StuckAfter, wg.Wait) {
+			if !c5.WatchdogProgress(hist, c5.StuckIdle, c5.StuckAfter, wg.Wait) {
 				return "stuck"
 			}
 			toks := hist.Tokens()
@@ -489,11 +722,23 @@ func c05StartPool(cfg verifh.Cfg) (func(op []string) string, func()) {
 		}
 		return "bad-op"
 	}
-	return step, func() { timex.VerifClockOff() }
+	return step, func() {
+		for ; pending > 0; pending-- { // let the waiting Gets of this section go
+			inject()
+			select {
+			case <-results:
+			case <-time.After(time.Second):
+			}
+		}
+		timex.VerifClockOff()
+	}
 }
 
-func TestVerifC05Syncx(t *testing.T) {
-	secs := verifh.Sections(c05Gen)
+func TestVerifC05SyncxSeq(t *testing.T) { c05RunSyncx(t, verifh.Sections(c05GenSeq)) }
+
+func TestVerifC05SyncxConc(t *testing.T) { c05RunSyncx(t, verifh.Sections(c05GenConc)) }
+
+func c05RunSyncx(t *testing.T, secs []verifh.Section) {
 	verifh.Run(t, secs, func(cfg verifh.Cfg) (func(op []string) string, func()) {
 		switch cfg.Str("kind", "") {
 		case "limit":
